@@ -222,7 +222,7 @@ class Program:
             callee = c.fn
             ps = list(callee.params)
             bound = c.how in ("method", "ctor", "cha", "bound", "byname",
-                              "field")
+                              "field", "super")
             if callee.cls is not None and bound and ps:
                 ps = ps[1:]
             elif c.how == "basecall" and ps:
@@ -511,6 +511,23 @@ class Program:
             r = m.resolve_dotted(mod, f.id)
             return self._from_qual(fi, r, call, f.id)
 
+        if isinstance(f, ast.Attribute) and isinstance(f.value, ast.Call) \
+                and isinstance(f.value.func, ast.Name) \
+                and f.value.func.id == "super" and not f.value.args \
+                and fi.cls is not None and not self._is_local(fi, "super"):
+            # super().method(...): the next definition along the MRO of the
+            # defining class (single inheritance chains in this code base;
+            # for a subclass instance the MRO may interleave other classes,
+            # which zero-argument super() in a linear hierarchy does not)
+            mro = m.mro(fi.cls.qualname)
+            for k in mro[1:]:
+                c = m.classes.get(k)
+                if c is not None and f.attr in c.methods:
+                    return [Callee("repo", c.methods[f.attr], how="super")]
+                if c is None:
+                    return [Callee("external", name=k + "." + f.attr,
+                                   how="dotted")]
+            return []
         if isinstance(f, ast.Attribute):
             d = dotted(f)
             if d is not None and not self._is_local(fi, d.split(".")[0]):
